@@ -261,7 +261,7 @@ func (c *Ctx) HasCall(fnSpec, callee string, argPats []string, onSuccess bool, d
 		return
 	}
 	if onSuccess {
-		if !c.mustPassAny(f, hits) {
+		if !c.MustPassAny(f, hits) {
 			c.add(kind, fnSpec, r, desc, report.Violated, fmt.Sprintf("a success path avoids every call %s(%s)", callee, strings.Join(argPats, ", ")), c.posOf(hits[0]))
 			return
 		}
@@ -270,7 +270,7 @@ func (c *Ctx) HasCall(fnSpec, callee string, argPats []string, onSuccess bool, d
 }
 
 // mustPassAny: every entry→success path passes through the block of at least one of the calls.
-func (c *Ctx) mustPassAny(f *ir.Func, calls []ssa.CallInstruction) bool {
+func (c *Ctx) MustPassAny(f *ir.Func, calls []ssa.CallInstruction) bool {
 	blocks := map[*ssa.BasicBlock]bool{}
 	for _, call := range calls {
 		blocks[call.Block()] = true
